@@ -71,6 +71,8 @@ def compare(prep, repo):
     # 2. target independence (sources up to numbering of generated local identifiers; XML exactly)
     cmp_dirs("target-source-differs(package,directory)", pkg_go, os.path.join(A, "dir"), "_ins.go", renumber)
     cmp_dirs("target-source-differs(directory,file)", os.path.join(A, "dir"), os.path.join(A, "file"), "_ins.go", renumber)
+    # 2b. the destination's previous content does not matter (NoClean run over longer / shorter / unrelated old files)
+    cmp_dirs("rerun-differs(directory target: fresh destination, existing destination)", os.path.join(A, "dir"), os.path.join(A, "rerun"), "_ins.go", renumber)
     cmp_dirs("target-xml-differs(package,directory)", pkg_xml, os.path.join(A, "dirxml"), ".xml")
     cmp_dirs("target-xml-differs(directory,file)", os.path.join(A, "dirxml"), os.path.join(A, "filexml"), ".xml")
     # the grammar declarations: single-file target (prepare) against directory target
@@ -78,6 +80,6 @@ def compare(prep, repo):
     alive = set(listing(os.path.join(gm, "decl_ins"), "_ins.go"))
     cmp_dirs("target-source-differs(grammar file,directory)", os.path.join(gm, "decl_ins"), os.path.join(A, "decl_dir"), "_ins.go", renumber, names=alive)
     # 3. determinism across fresh processes
-    for sub, suffix in (("gopath/src/pkgout", "_ins.go"), ("gopath/src/pkgxml", ".xml"), ("dir", "_ins.go"), ("file", "_ins.go"), ("dirxml", ".xml"), ("filexml", ".xml"), ("decl_dir", "_ins.go"), ("decl_dirxml", ".xml")):
+    for sub, suffix in (("gopath/src/pkgout", "_ins.go"), ("gopath/src/pkgxml", ".xml"), ("dir", "_ins.go"), ("rerun", "_ins.go"), ("file", "_ins.go"), ("dirxml", ".xml"), ("filexml", ".xml"), ("decl_dir", "_ins.go"), ("decl_dirxml", ".xml")):
         cmp_dirs("run-to-run-differs(%s)" % sub, os.path.join(A, sub), os.path.join(B, sub), suffix)
     return n, findings
